@@ -304,7 +304,9 @@ class IOOpsMixin:
                         self.verdict("O-env", "C09", client, i, f"fill dropped the supplied non-zero column {c}")
                         return
                     continue
-                if len(g) != len(v) or not numpy.allclose(g, v.astype(float), rtol=1e-9, atol=1e-9):
+                # 1e-6 GPa absolute: the generator rounds every supplied number to 10 significant digits, so three supplied members of
+                # c66 = (c11 - c12) / 2 are mutually inconsistent by up to ~1e-7, and the least-squares solution legitimately spreads that
+                if len(g) != len(v) or not numpy.allclose(g, v.astype(float), rtol=1e-9, atol=1e-6):
                     self.verdict("O-env", "C09", client, i, f"fill moved the supplied column {c}: max shift {float(numpy.max(numpy.abs(g - v))):.3e}")
                     return
             self.probe("fill_supplied_values_checked")
